@@ -14,6 +14,7 @@ by K, one receiver not writable -> FAILED_MESSAGE traffic, the logger not writab
 from __future__ import annotations
 
 import itertools
+import zlib
 from typing import Any, Dict, List, Sequence, Tuple
 
 from .. import core, mmx, proto as P
@@ -23,6 +24,7 @@ IDS = {"P1": 21, "P2": 22, "R1": 31, "R2": 32, "K": 33, "L": 60, "E": 34}
 HIDS = {"P1": 1, "P2": 2, "R1": 3, "R2": 4, "K": 5, "L": 6, "E": 7}
 # E subscribes BEFORE it sends CONNECT: frames written to it before the handshake count like all others
 SIZES = (4, 0, 65535)
+BIG_SIZES = (65536, 4, 1048576, 200000)  # beyond the largest definable message, up to the largest payload the manager accepts
 TICKS = (0.95, 1.05, 5.1)
 
 
@@ -83,7 +85,7 @@ def deviations(sched: List[Dict[str, Any]], bound: int, tier: str) -> List[List[
     return res
 
 
-_PAT = bytes(range(256)) * 258
+_PAT = bytes(range(256)) * 4200
 
 
 def pattern(counter: int, size: int) -> bytes:
@@ -103,12 +105,15 @@ def execute(case) -> Dict[str, Any]:
     tc, n, sizes, sched = case[:4]
     dests = DESTS[case[4]] if len(case) > 4 else (0, 0)
     mmx.fresh_gc()
-    w = mmx.World(timecode=tc)
+    # "logging": the manager runs at log level WARNING, so its log records are published as messages too
+    w = mmx.World(timecode=tc, log_level=30) if (len(case) > 5 and case[5] == "logging") else mmx.World(timecode=tc)
     problems: List[Dict[str, Any]] = []
     seq = {s: 0 for s in IDS}
     data_seen: Dict[str, List[Tuple[int, float]]] = {s: [] for s in IDS}
     kinds = set()
     nframes = 0
+    all_seen: Dict[str, List[Tuple]] = {s: [] for s in IDS}
+    occ: Dict[str, Dict[Tuple, int]] = {s: {} for s in IDS}
 
     def collect():
         nonlocal nframes
@@ -127,6 +132,11 @@ def execute(case) -> Dict[str, Any]:
                                      "msg_type": f.msg_type})
                     seq[s] = f.msg_count
                 kinds.add(P.normalize(f)[0])
+                # every frame has an identity (the manager's own publications too): source, type, time stamp, destination,
+                # payload, and - for byte-identical repeats - the occurrence number on this connection
+                ident = (f.src_mod_id, f.msg_type, f.h[2], f.h[7], zlib.crc32(f.payload))
+                occ[s][ident] = occ[s].get(ident, 0) + 1
+                all_seen[s].append(ident)
                 if f.msg_type == T1 and f.src_mod_id in (IDS["P1"], IDS["P2"]):
                     data_seen[s].append((f.src_mod_id, f.h[2]))
                     want = pattern(int(f.h[2]), f.nbytes)
@@ -189,6 +199,17 @@ def execute(case) -> Dict[str, Any]:
         ob = [x for x in data_seen[b] if x in common]
         if oa != ob:
             problems.append({"kind": "cross-receiver-order", "a": a, "b": b, "order_a": oa, "order_b": ob})
+    # ... the same for every pair of frames of any origin (acknowledgement copies, failure notices, reports, log records)
+    for a, b in itertools.combinations([s for s in all_seen if all_seen[s]], 2):
+        # byte-identical repeats cannot be told apart (one receiver may have missed an earlier one): only frames that occur
+        # exactly once on both connections are compared
+        common = {x for x in set(all_seen[a]) & set(all_seen[b]) if occ[a][x] == 1 and occ[b][x] == 1}
+        oa = [x for x in all_seen[a] if x in common]
+        ob = [x for x in all_seen[b] if x in common]
+        if oa != ob:
+            i = next(k for k, (x, y) in enumerate(zip(oa, ob)) if x != y)
+            problems.append({"kind": "cross-receiver-order-any-origin", "a": a, "b": b, "first_difference": [list(oa[i][:4]), list(ob[i][:4])],
+                             "types_a": [x[1] for x in oa][:12], "types_b": [x[1] for x in ob][:12]})
     sig = tuple(tuple(data_seen[s]) for s in ("R1", "R2", "L", "K", "E"))
     return {"problems": problems, "frames": nframes, "kinds": sorted(kinds), "sig": hash(sig),
             "interleaved": len({m for (m, c) in data_seen["L"]}) > 1}
@@ -205,9 +226,9 @@ def run_chunk(cases):
 def cases_for(tier: str):
     cases = []
     if tier == "quick":
-        plan = [(False, 2, SIZES, 2), (True, 2, (0, 4), 1), (False, 3, (0, 4), 0)]
+        plan = [(False, 2, SIZES, 2), (True, 2, (0, 4), 1), (False, 3, (0, 4), 0), (False, 2, BIG_SIZES, 0)]
     else:
-        plan = [(False, 2, SIZES, 3), (True, 2, SIZES, 2), (False, 3, (0, 4), 1), (True, 3, SIZES, 1)]
+        plan = [(False, 2, SIZES, 3), (True, 2, SIZES, 2), (False, 3, (0, 4), 1), (True, 3, SIZES, 1), (False, 2, BIG_SIZES, 1), (True, 3, BIG_SIZES, 0)]
     for tc, n, sizes, bound in plan:
         for b in base_schedules(n):
             for s in deviations(b, bound, tier):
@@ -216,6 +237,10 @@ def cases_for(tier: str):
             for pat in ("toR1", "mixed"):
                 for s in deviations(b, min(bound, 1), tier):
                     cases.append((tc, n, sizes, s, pat))
+            # the manager's own log records on the bus (log level WARNING)
+            if n == 2:
+                for s in deviations(b, min(bound, 2), tier):
+                    cases.append((tc, n, (0, 4), s, "bcast", "logging"))
     return cases
 
 
@@ -259,7 +284,7 @@ def run(tier: str) -> int:
 
 def replay(case) -> int:
     c = case["case"]
-    cc = (c[0], c[1], tuple(c[2]), c[3]) + tuple(c[4:5])
+    cc = (c[0], c[1], tuple(c[2]), c[3]) + tuple(c[4:6])
     r1 = execute(cc)
     r2 = execute(cc)
     if str(r1["problems"]) != str(r2["problems"]):
